@@ -158,8 +158,8 @@ func (c *StructCase) pickEntry(choice int) {
 	c.Entry = ok[choice%len(ok)]
 }
 
-// runStructCase executes the call and the reference walk.
-func runStructCase(c *StructCase) (res *model.Result, errText string, isNil bool, panicked interface{}) {
+// source materialises the argument of the call (incl. the unexported Tree field).
+func (c *StructCase) source() interface{} {
 	rv := c.build()
 	if c.Hidden != nil {
 		sv := rv
@@ -171,7 +171,12 @@ func runStructCase(c *StructCase) (res *model.Result, errText string, isNil bool
 			sv.Addr().Interface().(*lib.Tree).SetHidden(h)
 		}
 	}
-	src := rv.Interface()
+	return rv.Interface()
+}
+
+// runStructCase executes the call and the reference walk.
+func runStructCase(c *StructCase) (res *model.Result, errText string, isNil bool, panicked interface{}) {
+	src := c.source()
 	res = model.Walk(c.walkCfg(), reflect.ValueOf(src))
 	var err error
 	panicked = ev.Guard(func() { err = c.call(src) })
